@@ -33,12 +33,12 @@ def tla_set(xs):
 
 def consts(ctx, ntasks=2, faults=1, racing=False, kinds=ALLKINDS, layouts=("own", "shared"), states=("CONFIGURED", "RUNNING"),
            watch=("select", "unsub", "busy"), hooks=("none",), devs=None, strict=False, fine=False, stale=0, mup=0, extras=None,
-           reuse=(False,)):
+           reuse=(False,), vias=("direct", "recon")):
     d = {c: ctx.deviation_open(k) for c, k in DEVS.items()} if devs is None else devs
     lines = ["  NTasks = %d" % ntasks, "  MaxFaults = %d" % faults, "  Racing = %s" % ("TRUE" if racing else "FALSE"),
              "  MaxStale = %d" % stale, "  MaxMup = %d" % mup,
              "  Kinds = %s" % tla_set(kinds), "  Layouts = %s" % tla_set(layouts), "  InitStates = %s" % tla_set(states),
-             "  InitWatch = %s" % tla_set(watch), "  GoErrHooks = %s" % tla_set(hooks),
+             "  InitWatch = %s" % tla_set(watch), "  GoErrHooks = %s" % tla_set(hooks), "  Vias = %s" % tla_set(vias),
              "  FineChains = %s" % ("TRUE" if fine else "FALSE"), "  Strict = %s" % ("TRUE" if strict else "FALSE")]
     for c in DEVS:
         lines.append("  %s = %s" % (c, "TRUE" if d[c] else "FALSE"))
@@ -86,7 +86,8 @@ def scenario(sid, shape, script, long_ms, origin="gen"):
     hooks = {}
     if shape["hook"] != "none":
         # a critical call that fails before GO_ERROR: with a negative weight it runs before the end of run is recorded
-        trig = "before_GO_ERROR-10" if shape["hook"] == "early" else "before_GO_ERROR"
+        # ("after": it fails after GO_ERROR, before the closing run event would be published)
+        trig = {"early": "before_GO_ERROR-10", "late": "before_GO_ERROR", "after": "after_GO_ERROR-1"}[shape["hook"]]
         roles += cs.role_call("goerr", "ge%d" % sid, trig, critical=True)
         hooks["ge%d" % sid] = {"outcome": "fail"}
     late = [s for s in script if s[0] == "api" and s[2] == "late"]
@@ -166,7 +167,8 @@ def scenario(sid, shape, script, long_ms, origin="gen"):
             if s[1] == "INTERNAL_ERROR":
                 # a task that went to ERROR on its own answers every later command with an error
                 steps += [{"do": "script", "rule": {"class": cls, "outcome": "err_error"}}]
-            steps += [{"do": "fault", "kind": s[1], "class": cls}]
+            # (a fourth element "recon": the master's answer to a reconciliation request carries the terminal state)
+            steps += [{"do": "reconfault" if len(s) > 3 and s[3] == "recon" else "fault", "kind": s[1], "class": cls}]
             if marmed and s[1] != "TASK_FINISHED" and s[1] != "INTERNAL_ERROR":
                 steps += [{"do": "waitgate", "point": "wf.taskrole.merged", "timeout_ms": 3000}]
             if sarmed and s[1] in ("TASK_FAILED", "TASK_LOST", "TASK_KILLED"):
@@ -234,6 +236,8 @@ def instant_of(shape, script):
         parts.append("watcher-" + shape["watch"])
     if shape.get("reused"):
         parts.append("reused-task")
+    if any(s[0] == "fault" and len(s) > 3 and s[3] == "recon" for s in script):
+        parts.append("learnt-by-reconciliation")
     seen = False
     for s in script:
         if s[0] == "fault":
@@ -329,7 +333,7 @@ def pick(ctx, cases, quick):
     one = lambda c: len(kinds(c)) == 1
     # every kind x live state x critical / non-critical victim, idle, one executor per task
     take(lambda c: two(c) and mixed(c) and one(c) and c[0]["watch"] == "select" and c[0]["layout"] == "own" and pattern(c) == ("fault",)
-         and not c[0].get("reused"),
+         and not c[0].get("reused") and len([s for s in c[1] if s[0] == "fault"][0]) == 3,
          lambda c: (kinds(c), c[0]["state"], victim_crit(c)), 1)
     # racing with START / STOP, parked early and late
     take(lambda c: two(c) and one(c) and c[0]["watch"] == "select" and pattern(c)[0].startswith("api") and len(c[1]) == 3
@@ -366,6 +370,10 @@ def pick(ctx, cases, quick):
     take(lambda c: two(c) and c[0]["hook"] != "none" and steps_of(c) == ("armf", "fault", "stale", "releasef") and victim_crit(c)
          and fault_of(c)[2] == c[1][2][1],
          lambda c: (c[0]["hook"], c[0]["state"]) if quick else (c[0]["hook"], c[0]["state"], kinds(c)), 1)
+    # a terminal status learnt through reconciliation (reason REASON_RECONCILIATION)
+    take(lambda c: two(c) and mixed(c) and pattern(c) == ("fault",) and len(fault_of(c)) > 3 and c[0]["layout"] == "own" and c[0]["watch"] == "select"
+         and not c[0].get("reused") and c[0]["hook"] == "none",
+         lambda c: ((kinds(c), c[0]["state"]) if victim_crit(c) else kinds(c)) if not quick else ((kinds(c) if victim_crit(c) else "non-critical")), 1)
     # the status reaction to a terminal status (INACTIVE) completes before the state reaction (ERROR) starts
     take(lambda c: two(c) and steps_of(c) == ("arms", "fault", "releases") and kinds(c)[0] in ("TASK_FAILED", "TASK_LOST", "TASK_KILLED")
          and c[0]["layout"] == "own",
@@ -401,7 +409,7 @@ def run(ctx):
     few = ["TASK_FAILED", "TASK_FINISHED", "AGENT_LOST", "INTERNAL_ERROR"]
     # idle environment: every kind, a stale healthy state message of the dead task, a master-generated TASK_RUNNING update
     ctx.model_check("Failure", None, workers=w, cfg_text=cfg_model(ctx, stale=1, mup=1))
-    ctx.model_check("Failure", None, workers=w, cfg_text=cfg_model(ctx, hooks=("early", "late"), stale=1,
+    ctx.model_check("Failure", None, workers=w, cfg_text=cfg_model(ctx, hooks=("early", "late", "after"), stale=1,
                                                                    kinds=["TASK_FAILED", "AGENT_LOST"] if quick else ALLKINDS,
                                                                    watch=("select",) if quick else ("select", "unsub", "busy")))
     # the role update in separate steps (merge, publish, forward, root merge, send) against a stale message of the same task
@@ -434,7 +442,7 @@ def run(ctx):
         d[c] = True
         ie = c.startswith("Code_InternalError")
         r = ctx.tlc("Failure", None, workers=2, cfg_text=cfg_model(ctx, devs=d, strict=True, kinds=["INTERNAL_ERROR"] if ie else NOT_IE,
-                                                                    hooks=("none", "early", "late") if c == "Code_ForcedErrorSkipsRunEnd" else ("none",)))
+                                                                    hooks=("none", "early", "late") if c == "Code_ForcedErrorSkipsRunEnd" else ("none",), vias=("direct",)))
         ctx.states += r.distinct
         ctx.transitions += r.generated
         violated = r.violated + re.findall(r"Error: Temporal property ([A-Za-z0-9_]+) was violated", r.out)
@@ -475,7 +483,7 @@ def run(ctx):
     racekinds = ["TASK_FAILED", "TASK_KILLED", "AGENT_LOST", "INTERNAL_ERROR"]
     n1 = gen()
     n1 += gen(racing=True, kinds=racekinds, watch=("select",)) if quick else gen(racing=True)
-    n2 = gen(hooks=("early", "late"), kinds=["TASK_FAILED", "AGENT_LOST"], watch=("select",), layouts=("own",))
+    n2 = gen(hooks=("early", "late", "after"), kinds=["TASK_FAILED", "AGENT_LOST"], watch=("select",), layouts=("own",), vias=("direct",))
     # a master-generated TASK_RUNNING update before the fault; a task that dies owing its answer to the racing transition;
     # a stale healthy state message of the dead task - within and beyond the watcher's 500 ms
     n5 = gen(racing=True, stale=1, mup=1, kinds=NOT_IE, watch=("select",), layouts=("own",) if quick else ("own", "shared"),
